@@ -1,6 +1,7 @@
 package drv
 
 import (
+	"context"
 	"fmt"
 	"math/rand"
 	"os"
@@ -24,20 +25,21 @@ import (
 type CancelVariant int
 
 const (
-	CvParkedDeliveredBeforeRelease  CancelVariant = iota // loop parked at an iteration boundary, cancel fully delivered, then released
-	CvParkedReleaseRacesDelivery                         // loop parked, cancel acknowledged and loop released at the same time
-	CvInsideRun                                          // some task is inside Run
-	CvRacingLastExit                                     // cancel issued together with the release of the last task
-	CvWaitingBehindBusy                                  // job waits behind a busy slot (no delay)
-	CvWaitingPendingDelay                                // job waits with a pending start delay
-	CvWaitingExpiredDelayBehindBusy                      // delay expired, but the slot is busy
-	CvDuplicateConcurrent                                // two concurrent cancels of the same running job
-	CvDeliveredAtRunEntry                                // the cancel is delivered between the scheduler's launch of a task and the runner's entry: the runner refuses it
+	CvParkedDeliveredBeforeRelease    CancelVariant = iota // loop parked at an iteration boundary, cancel fully delivered, then released
+	CvParkedReleaseRacesDelivery                           // loop parked, cancel acknowledged and loop released at the same time
+	CvInsideRun                                            // some task is inside Run
+	CvRacingLastExit                                       // cancel issued together with the release of the last task
+	CvWaitingBehindBusy                                    // job waits behind a busy slot (no delay)
+	CvWaitingPendingDelay                                  // job waits with a pending start delay
+	CvWaitingExpiredDelayBehindBusy                        // delay expired, but the slot is busy
+	CvDuplicateConcurrent                                  // two concurrent cancels of the same running job
+	CvDeliveredAtRunEntry                                  // the cancel is delivered between the scheduler's launch of a task and the runner's entry: the runner refuses it
+	CvInsideRunDuringGracefulShutdown                      // like inside-run, but a graceful Shutdown is waiting for the job when the cancel arrives
 	cvCount
 )
 
 func (v CancelVariant) String() string {
-	return [...]string{"parked-delivered-before-release", "parked-release-races-delivery", "inside-run", "racing-last-exit", "waiting-behind-busy", "waiting-pending-delay", "waiting-expired-delay-behind-busy", "duplicate-concurrent", "delivered-at-run-entry"}[v]
+	return [...]string{"parked-delivered-before-release", "parked-release-races-delivery", "inside-run", "racing-last-exit", "waiting-behind-busy", "waiting-pending-delay", "waiting-expired-delay-behind-busy", "duplicate-concurrent", "delivered-at-run-entry", "inside-run-during-graceful-shutdown"}[v]
 }
 
 // NumCancelVariants is the number of variants
@@ -223,6 +225,7 @@ func RunCancelCase(seed int64, o CancelOpts) *HistResult {
 	key := fmt.Sprintf("%s real=%v tasks=%d", o.Variant, o.Real, len(g.Names))
 
 	var target string
+	var shutdownDone chan struct{}
 	var expectNeverRuns bool
 	var expectCanceled bool // strict: the job must end reported canceled
 	doneBefore := 0
@@ -401,9 +404,13 @@ func RunCancelCase(seed int64, o CancelOpts) *HistResult {
 					q.journal("cancel and release issued concurrently")
 				}
 			}
-		case CvInsideRun, CvDuplicateConcurrent:
+		case CvInsideRun, CvDuplicateConcurrent, CvInsideRunDuringGracefulShutdown:
 			if b == len(order) {
 				b = len(order) - 1
+			}
+			if o.Variant == CvInsideRunDuringGracefulShutdown && o.Real {
+				res.Inconclusive = "variant is run with the monitored runner only"
+				return res
 			}
 			if !o.Real {
 				for _, n := range order[:b] {
@@ -435,6 +442,28 @@ func RunCancelCase(seed int64, o CancelOpts) *HistResult {
 					}
 				}
 			} else {
+				if o.Variant == CvInsideRunDuringGracefulShutdown {
+					// a graceful shutdown (no deadline) only waits for the job; the API keeps answering meanwhile, and a
+					// cancel acknowledged in that window has to take effect like any other
+					shutdownDone = make(chan struct{})
+					go func() {
+						defer close(shutdownDone)
+						_ = sys.Shutdown(7, context.Background(), "graceful")
+					}()
+					// shutdown has begun when schedule requests are refused as such (probe with an undefined pipeline: it can
+					// never create a job); bounded wait, the oracle does not depend on it
+					for i := 0; i < 4000; i++ {
+						if _, cls := sys.Schedule(8, "no-such-pipeline-probe", nil, "probe"); cls == "shutting-down" {
+							key += " shutdownObserved"
+							break
+						}
+						time.Sleep(50 * time.Microsecond)
+					}
+					// an unknown id is still "not found"
+					if c := sys.Cancel(0, "ffffffff-ffff-4fff-bfff-ffffffffffff"); c != "not-found" {
+						find("C04:cancel-result", "cancel of an unknown id during a graceful shutdown returned %q", c)
+					}
+				}
 				cls := sys.Cancel(0, target)
 				q.journal("cancel J1 (inside run, %d done) -> %s", b, cls)
 				if !o.Real && cls != "ok" {
@@ -442,7 +471,20 @@ func RunCancelCase(seed int64, o CancelOpts) *HistResult {
 				}
 			}
 			if !o.Real {
-				// the tasks are blocked at their gates: the stop reaches them before the driver lets them go
+				// the tasks are blocked at their gates: the stop reaches them before the driver lets them go.
+				// An acknowledged cancel of a running job that neither initiated a stop (hook H2, fired synchronously inside
+				// the cancel call) nor delivered one within 2 s was dropped
+				if countKind(core.KCancelSpawned, target) == 0 {
+					dl := time.Now().Add(2 * time.Second)
+					for countKind(core.KCancelEnter, target) == 0 && time.Now().Before(dl) {
+						time.Sleep(200 * time.Microsecond)
+					}
+					if countKind(core.KCancelEnter, target) == 0 && countKind(core.KCancelSpawned, target) == 0 {
+						find("C04:acknowledged-cancel-did-not-initiate-a-stop", "cancel of the running job was acknowledged (%s, %d tasks finished before) but the runner of the job was never told to stop", o.Variant, b)
+						expectCanceled = true
+						break
+					}
+				}
 				if !waitFor("cancel delivered", func() bool { return countKind(core.KCancelExit, target) >= 1 }) {
 					return res
 				}
@@ -532,6 +574,15 @@ func RunCancelCase(seed int64, o CancelOpts) *HistResult {
 			break
 		}
 		time.Sleep(200 * time.Microsecond)
+	}
+	if shutdownDone != nil {
+		select {
+		case <-shutdownDone:
+		case <-time.After(o.Watchdog):
+			if res.Inconclusive == "" {
+				res.Inconclusive = "watchdog: graceful shutdown did not return"
+			}
+		}
 	}
 	final := sys.Snapshot(-1)
 	tj := final.ByID(target)
